@@ -153,6 +153,54 @@ class Canon(ast.NodeTransformer):
                 if isinstance(f.target, ast.Tuple) and len(f.target.elts) == 2 and isinstance(f.target.elts[0], ast.Name) and f.target.elts[0].id not in loads and not isinstance(f.iter.args[0], ast.Starred):
                     f.target = f.target.elts[1]
                     f.iter = f.iter.args[0]
+        # v = E ; x = v   /   v = E ; return v   /   v = E ; if v: ...     ->   the statement with E in place of v
+        # when v is a plain local bound exactly once and read exactly once in the function (naming an intermediate value does not
+        # change what is computed: E is still evaluated first, and nothing else reads the name)
+        params = {a.arg for a in ast.walk(n.args) if isinstance(a, ast.arg)}
+        scoped = {nm for x in ast.walk(n) if isinstance(x, ast.Global | ast.Nonlocal) for nm in x.names}
+        changed = True
+        while changed:
+            changed = False
+            stores, reads = {}, {}
+            for x in ast.walk(n):
+                if isinstance(x, ast.Name):
+                    (stores if isinstance(x.ctx, ast.Store | ast.Del) else reads).setdefault(x.id, []).append(x)
+
+            def slot(b, use):
+                """(object, field) when `use` is the whole value of b's first-evaluated expression"""
+                if isinstance(b, ast.Assign | ast.AnnAssign | ast.Return | ast.Expr) and b.value is use:
+                    return b, "value"
+                if isinstance(b, ast.If) and b.test is use:
+                    return b, "test"
+                return None
+
+            pairs = {}
+            for blk_owner in ast.walk(n):
+                for fld in ("body", "orelse", "finalbody"):
+                    blk = getattr(blk_owner, fld, None)
+                    if not (isinstance(blk, list) and blk and isinstance(blk[0], ast.stmt)):
+                        continue
+                    for i in range(len(blk) - 1):
+                        a, b = blk[i], blk[i + 1]
+                        if not (isinstance(a, ast.Assign) and len(a.targets) == 1 and isinstance(a.targets[0], ast.Name)):
+                            continue
+                        v = a.targets[0].id
+                        if v in params or v in scoped or isinstance(a.value, ast.Name | ast.Constant):
+                            continue
+                        if any(isinstance(x, ast.NamedExpr | ast.Yield | ast.YieldFrom | ast.Await | ast.Lambda) for x in ast.walk(a.value)):
+                            continue
+                        for use in reads.get(v, []):
+                            sl = slot(b, use)
+                            if sl is not None:
+                                pairs.setdefault(v, []).append((blk, a, sl))
+            for v, ps in pairs.items():
+                # every store of v is consumed by the statement right after it, and nothing else reads v
+                if len(ps) == len(stores.get(v, [])) == len(reads.get(v, [])) and len({id(a) for _, a, _ in ps}) == len(ps):
+                    for blk, a, (obj, fld) in ps:
+                        setattr(obj, fld, a.value)
+                        blk[:] = [st for st in blk if st is not a]
+                    changed = True
+                    break
         return n
 
     visit_AsyncFunctionDef = visit_FunctionDef
